@@ -165,6 +165,8 @@ PLAN["C15"]["proofs"] = PLAN["C05"]["proofs"]
 PLAN["C03"]["proofs"] = [dict(module="ArrayCap.tla", what="for every length and argument count: length <= capacity is an inductive invariant of the array "
                               "list's growBy / shrink / Clear / load arithmetic")]
 PLAN["C17"]["proofs"] = PLAN["C03"]["proofs"]
+PLAN["C10"]["proofs"] = [dict(module="BidiInv.tla", what="for every key/value universe and map size: forward and inverse are inverse functions of each other "
+                              "(hence one-to-one both ways) is an inductive invariant of the Put / Remove / Clear statements (BidiOps, shared with the TLC model BidiMap)")]
 PLAN["C08"]["proofs"] = [dict(module="CursorIdx.tla", what="for every container size: the index iterator's index equals the abstract cursor position, stays in "
                               "-1..size, and Next/Prev/First/Last answer withinRange(index) (inductive invariant)")]
 
